@@ -239,7 +239,7 @@ func (w *World) amount() int64 {
 func (w *World) spendable(v *View, wallets bool) []*Out {
 	owned := w.AllOwned()
 	var outs []*Out
-	for _, o := range v.Outs {
+	for _, o := range v.SortedOuts() {
 		if o.Spent || !o.HasHash || o.Value <= 0 || w.Avoid[o.OP] || w.Keep[o.OP] {
 			continue
 		}
